@@ -13,12 +13,13 @@ struct c08_ghost {
 	size_t a_calls, b_calls;      /* elements fetched so far */
 	spec_rl_state rl;             /* reference machine */
 	int eq_calls; int eq_last;    /* KSI_DataHash_equals */
-	int in_hash_eq_calls, in_hash_eq;   /* comparison of the input hashes (top-level job) */
 } g_c8;
 struct KSI_HashChainLink_st g_c8_alink, g_c8_blink;     /* storage of the element handed out last, per list */
 static struct KSI_HashChainLink_list_st g_c8_alist, g_c8_blist;
 static char g_c8_atok, g_c8_btok;                        /* opaque sibling hash tokens */
 KSI_DataHash *g_c8_atokp, *g_c8_btokp;                   /* = &g_c8_atok, &g_c8_btok (set by the harness) */
+const void *g_c8_arg_a, *g_c8_arg_b;                     /* the two chains the right-link check was asked about (recorded through its contract) */
+int g_c8_in_eq_calls, g_c8_in_eq;                        /* comparison of the input hashes (top-level job) */
 const KSI_DataHash *g_c8_in_a, *g_c8_in_b;              /* input hashes of the two chains (top-level job) */
 
 static size_t c08_stub_length(KSI_LIST(KSI_HashChainLink) *l) {
@@ -50,9 +51,9 @@ int KSI_DataHash_equals(const KSI_DataHash *left, const KSI_DataHash *right) {
 	int v;
 #ifdef C08_TOPLEVEL
 	__CPROVER_assert(left == g_c8_in_a && right == g_c8_in_b, "the input hashes of a and b are compared");
-	g_c8.in_hash_eq_calls++;
+	g_c8_in_eq_calls++;
 	v = (left != NULL && right != NULL) ? (left == right ? 1 : nondet_bool()) : 0;
-	g_c8.in_hash_eq = v;
+	g_c8_in_eq = v;
 	return v;
 #else
 	__CPROVER_assert(left == g_c8_atokp && right == g_c8_btokp, "a link of a is compared with a link of b");
